@@ -172,6 +172,10 @@ def parseOp (ws : List String) : Option Op :=
   | ["mmov", i, f, w] => do pure (.mov (← i.toNat?) (← i.toNat?) (← movFn? f) (← optInt? w))
   | ["fill", k, i, m, arg, d] => do pure (.fill (← k.toNat?) (← i.toNat?) (← fillMethod? m arg) (← dates? d))
   | ["mfill", i, m, arg, d] => do pure (.fill (← i.toNat?) (← i.toNat?) (← fillMethod? m arg) (← dates? d))
+  | ["extrap", k, i, cs, c, d] => do
+    pure (.extrap (← k.toNat?) (← i.toNat?) (← (splitNE cs ",").mapM parseRat?) (← parseRat? c) (← dates? d))
+  | ["mextrap", i, cs, c, d] => do
+    pure (.extrap (← i.toNat?) (← i.toNat?) (← (splitNE cs ",").mapM parseRat?) (← parseRat? c) (← dates? d))
   | ["rw", i, t, c, new] => do pure (.replaceWhere (← i.toNat?) (← testFn? t c) (← cell? new))
   | _ => none
 
